@@ -117,6 +117,9 @@ def run(ctx):
         ctx.violation('correspondence', '%s: implementation differs from the family model (to_cnf/to_opb); theorem cnf_opb_same_models no longer covers it' % name,
                       dict(input=dict(family=name, params=p), numvar=(n, mnum), theorem='C08_same_models'), False, site='model-mismatch', cls=name)
 
+    random_builder_calls(ctx, CNF, OPB)
+    dimacs_family(ctx)
+
     # command line: cnfgen vs pbgen on the same arguments
     from cnfgen.clitools.cnfgen import cli as cnfgen_cli
     from cnfgen.clitools.pbgen import cli as pbgen_cli
@@ -151,4 +154,119 @@ def run(ctx):
                     w = sorted(m1 ^ m2)[0]
                     ctx.violation('counterexample', 'cnfgen and pbgen formulas for %s have different models' % ' '.join(argv),
                                   dict(input=dict(argv=argv), assignment=list(w)), True, site='tools-models', cls=fam['name'])
+    shutil.rmtree(tmp, ignore_errors=True)
+
+
+def random_builder_calls(ctx, CNF, OPB):
+    """the theorem's own quantifier: ANY list of builder calls executed on a CNF object and on an OPB object; both must
+    equal the renderings of the extracted model (to_cnf in order, to_opb in order) and have the same models"""
+    from lib import cmd, Sym
+    rng = ctx.rng
+    reqs, cases = [], []
+    for i in range(300 if ctx.tier == 'quick' else 3000):
+        nv = rng.randint(1, 6)
+        calls = []
+        for _ in range(rng.randint(0, 5)):
+            kind = rng.choice(['clause', 'clause', 'clause', 'lin', 'lin', 'parity', 'loose_majority', 'loose_minority', 'strict_majority', 'strict_minority'])
+            k = rng.randint(0, 4)
+            lits = [rng.choice([1, -1]) * rng.randint(1, nv) for _ in range(k)]     # repeated and opposite literals on purpose
+            if kind == 'clause':
+                calls.append([Sym('clause'), lits])
+            elif kind == 'lin':
+                calls.append([Sym('lin'), lits, rng.choice(['<=', '>=', '==', '!=', '<', '>']), rng.randint(-1, k + 1)])
+            elif kind == 'parity':
+                calls.append([Sym('parity'), lits, rng.randint(0, 1)])
+            else:
+                calls.append([Sym(kind), lits])
+        reqs.append(cmd('to_cnf', calls))
+        reqs.append(cmd('to_opb', calls))
+        cases.append((nv, calls))
+    reps = ctx.model.batch(reqs)
+    for j, (nv, calls) in enumerate(cases):
+        mcnf, mopb = reps[2 * j], reps[2 * j + 1]
+        F, G = CNF(), OPB()
+        F.update_variable_number(nv)
+        G.update_variable_number(nv)
+        try:
+            for c in calls:
+                for X in (F, G):
+                    if c[0] == 'clause':
+                        X.add_clause(list(c[1]))
+                    elif c[0] == 'lin':
+                        op = c[2]
+                        if op in ('<', '>') and X is G:
+                            X.add_constraint([(1, l) for l in c[1]] + [op, c[3]])
+                        else:
+                            {'<=': X.cardinality_leq, '>=': X.cardinality_geq, '==': X.cardinality_eq, '!=': X.cardinality_neq,
+                             '<': lambda l, v: X.add_linear(l, '<', v), '>': lambda l, v: X.add_linear(l, '>', v)}[op](list(c[1]), c[3])
+                    elif c[0] == 'parity':
+                        X.add_parity(list(c[1]), c[2])
+                    else:
+                        getattr(X, 'add_' + str(c[0]))(list(c[1]))
+        except Exception as e:
+            ctx.violation('counterexample', 'a builder call raised %s under one of the classes' % type(e).__name__, dict(input=dict(calls=str(calls))), True,
+                          site='builder-raises', cls=type(e).__name__)
+            continue
+        cl = [list(c) for c in F]
+        cons = [[tuple(t) if isinstance(t, (list, tuple)) else t for t in c] for c in G]
+        ctx.count('builder-calls', str(calls), nontrivial=len(calls) > 0, sample=dict(numvar=nv, calls=str(calls)))
+        ctx.tally('builder call list length', len(calls))
+        mopb_py = [[tuple(t) for t in c[0]] + [c[1], c[2]] for c in mopb]
+        if cl == mcnf and cons == mopb_py and F.number_of_variables() == G.number_of_variables():
+            continue
+        ctx.disagreements_checked += 1
+        n = max(F.number_of_variables(), G.number_of_variables())
+        m1 = set(tuple(a[1:]) for a in assignments(n) if cnf_sat(a, cl))
+        m2 = set(opb_models(n, [list(c) for c in G]))
+        if m1 != m2 or F.number_of_variables() != G.number_of_variables():
+            w = sorted(m1 ^ m2)[0] if m1 != m2 else None
+            ctx.violation('counterexample', 'the same builder calls give different formulas under class CNF and class OPB', dict(input=dict(numvar=nv, calls=str(calls)), assignment=w,
+                          cnf=cl, opb=[list(c) for c in G]), True, site='builder-models', cls=str(sorted(set(str(c[0]) for c in calls))))
+        else:
+            ctx.violation('correspondence', 'builder calls render differently from IR.v to_cnf/to_opb (theorem C08_same_models no longer covers the code)',
+                          dict(input=dict(numvar=nv, calls=str(calls)), cnf=cl, model_cnf=mcnf, opb=[list(c) for c in G], model_opb=mopb_py, theorem='C08_same_models'), False,
+                          site='builder-render', cls='order-or-shape')
+
+
+def dimacs_family(ctx):
+    """the families without a model of their own (dimacs, and, or, true, false): cnfgen vs pbgen, same variables and models"""
+    import os
+    import tempfile
+    from cnfgen.clitools.cnfgen import cli as cnfgen_cli
+    from cnfgen.clitools.pbgen import cli as pbgen_cli
+    rng = ctx.rng
+    tmp = tempfile.mkdtemp(prefix='c08d-')
+    cases = [['true'], ['false']] + [[k, a, b] for k in ('and', 'or') for a in range(3) for b in range(3)]
+    for i in range(40 if ctx.tier == 'quick' else 400):
+        n = rng.randint(1, 5)
+        cl = [[rng.choice([1, -1]) * rng.randint(1, n) for _ in range(rng.randint(0, 4))] for _ in range(rng.randint(0, 5))]
+        p = os.path.join(tmp, 'f%d.cnf' % i)
+        with open(p, 'w') as f:
+            f.write('p cnf %d %d\n' % (n, len(cl)) + ''.join(' '.join(map(str, c + [0])) + '\n' for c in cl))
+        cases.append(['dimacs', p])
+    for argv in cases:
+        argv = [str(x) for x in argv]
+        a = outcome(lambda: cnfgen_cli(['cnfgen'] + argv, mode='formula'))
+        b = outcome(lambda: pbgen_cli(['pbgen'] + argv, mode='formula'))
+        ctx.count('unmodelled-families', tuple(argv), nontrivial=True, sample=dict(argv=argv, file=open(argv[1]).read() if argv[0] == 'dimacs' else None))
+        ctx.tally('unmodelled family', argv[0])
+        if a[0] != 'ok' or b[0] != 'ok':
+            if (a[0] == 'ok') != (b[0] == 'ok'):
+                ctx.violation('counterexample', 'cnfgen and pbgen disagree on accepting %s' % ' '.join(argv), dict(input=dict(argv=argv), cnfgen=str(a[1:])[:200], pbgen=str(b[1:])[:200]),
+                              True, site='tools-accept', cls=argv[0])
+            continue
+        F, G = a[1], b[1]
+        n = F.number_of_variables()
+        if type(G).__name__ != 'OPB':
+            ctx.violation('counterexample', 'pbgen %s builds a %s' % (argv[0], type(G).__name__), dict(input=dict(argv=argv)), True, site='formula-class', cls=argv[0])
+        elif n != G.number_of_variables() or list(F.all_variable_labels()) != list(G.all_variable_labels()):
+            ctx.violation('counterexample', 'cnfgen and pbgen disagree on variables/names for %s' % ' '.join(argv), dict(input=dict(argv=argv)), True, site='tools-shape', cls=argv[0])
+        elif n <= 14:
+            m1 = set(tuple(x[1:]) for x in assignments(n) if cnf_sat(x, [list(c) for c in F]))
+            m2 = set(opb_models(n, [list(c) for c in G]))
+            if m1 != m2:
+                w = sorted(m1 ^ m2)[0]
+                ctx.violation('counterexample', 'cnfgen and pbgen formulas for %s have different models' % ' '.join(argv),
+                              dict(input=dict(argv=argv, file=open(argv[1]).read() if argv[0] == 'dimacs' else None), assignment=list(w)), True, site='tools-models', cls=argv[0])
+    import shutil
     shutil.rmtree(tmp, ignore_errors=True)
